@@ -45,6 +45,11 @@
 //!   `name:prio:noloop:ck:limit:acts` (`when C.<ck> < limit`), acts = `-` | `+`-joined list of `o` (ActionResult::Retract of the rule's own
 //!   matched fact), `h<n>` (Retract(FactHandle::new(n)): any handle — live, already retracted, never existing), `t` (RetractByType("C")),
 //!   queued in that order; ops and observation tokens as in the `H` cases, names printed as "N<name>".  At most 3 inserts per case.
+//!
+//! caller-queued activations := `G <rules> <op> …` — ONE IncrementalEngine (rules and ops as in the `H` cases) on whose OWN agenda the caller
+//!   queues activations through the public accessor: `a<rule>:<sal>:<actg|->:<nl>:<h|->` = `engine.agenda_mut().add_activation(
+//!   Activation::new("R<rule>", sal).with_no_loop(nl)[.with_activation_group("x<actg>")][.with_matched_fact(h)])` (token `a`).  Engine-made
+//!   activations never carry an activation group; these do: at most one rule of an activation group fires between resets in `fire_all` too.
 use rre_harness::*;
 use rust_rule_engine::rete::agenda::{Activation, AdvancedAgenda, ConflictResolutionStrategy};
 use rust_rule_engine::rete::facts::{FactValue, TypedFacts};
@@ -381,6 +386,17 @@ fn exec_history(rules: Vec<CRule>, names: Option<Vec<u64>>, kacts: Option<Vec<Ve
                     Ok(h) => format!("x{}", if e.retract(FactHandle::new(h)).is_ok() { 1 } else { 0 }),
                     _ => return "bad-case".into(),
                 },
+                b'a' => {
+                    let p: Vec<&str> = op[1..].split(':').collect();
+                    if p.len() != 5 { return "bad-case".into(); }
+                    let (Ok(rule), Ok(sal), Some(actg), Some(h)) = (p[0].parse::<u64>(), p[1].parse::<i32>(), opt(p[2]), opt(p[4])) else { return "bad-case".into() };
+                    let name = if named { pname("N", rule) } else { format!("R{}", rule) };
+                    let mut a = Activation::new(name, sal).with_no_loop(p[3] == "1");
+                    if let Some(x) = actg { a = a.with_activation_group(pname("x", x)); }
+                    if let Some(h) = h { a = a.with_matched_fact(FactHandle::new(h)); }
+                    e.agenda_mut().add_activation(a);
+                    "a".to_string()
+                }
                 b'F' if op == "F" => { let fired = e.fire_all(); format!("F{}", if named { rle_n(&fired) } else { rle(&fired) }) }
                 b'Z' if op == "Z" => { e.reset(); "z".to_string() }
                 _ => return "bad-case".into(),
@@ -499,7 +515,7 @@ fn exec(case: &str) -> String {
     let t: Vec<&str> = case.split_whitespace().collect();
     match t.first().copied() {
         Some("A") => exec_agenda(&t[1..]),
-        Some("H") if t.len() >= 2 => {
+        Some("H") | Some("G") if t.len() >= 2 => {
             let Some(rules) = parse_rules(t[1]) else { return "bad-case".into() };
             exec_history(rules, None, None, t[2..].iter().map(|s| s.to_string()).collect())
         }
@@ -950,6 +966,51 @@ fn odd_rule_names(rng: &mut Rng, case: &str) -> String {
     out.join(" ")
 }
 
+/// family "activations queued by the caller on the engine's agenda" (seeded change C07-14: `fire_all` recording a fired activation only
+/// the first time its rule NAME fires).  2..3 rules; a rule is either never satisfied (limit -100: every activation of it comes from
+/// the caller) or satisfied by the inserted facts (then mostly no-loop: the engine's own activation fires once).  Ops: inserts, then
+/// `a` ops — ungrouped and grouped activations (each rule keeps to ONE activation group, shared with other rules), flags no_loop 0/1,
+/// with or without a matched fact, saliences that put the grouped activation of a rule BEHIND an earlier firing of the same rule and
+/// another rule of the group behind that —, `F`, sometimes `Z` and a second round, update / retract in between.  At most one fact.
+fn gen_group(rng: &mut Rng) -> String {
+    let nrules = rng.range(2, 3);
+    let mut rules = Vec::new();
+    let mut matchable = Vec::new();
+    // distinct saliences: the order in which `insert` visits rules of equal salience is a HashMap order
+    let mut prios: Vec<i64> = vec![0, 5, 10, 20];
+    rng.shuffle(&mut prios);
+    for ri in 0..nrules as usize {
+        let m = rng.chance(1, 3);
+        let nl = if m { !rng.chance(1, 8) } else { rng.chance(1, 2) };
+        matchable.push(m);
+        rules.push(format!("{}:{}:0:{}:0:0", prios[ri], if nl { 1 } else { 0 }, if m { 10 } else { -100 }));
+    }
+    let grp: Vec<u64> = (0..nrules).map(|_| if rng.chance(3, 4) { 1 } else { 2 }).collect();
+    let mut ops: Vec<String> = Vec::new();
+    let mut facts = 0u64;
+    // at most ONE fact: with two, the order in which `get_by_type` (a HashSet) hands the facts to the propagation decides where a stale
+    // activation sits among activations of equal salience — not predictable
+    for _ in 0..rng.below(2) { ops.push(format!("i{}:0", rng.below(5))); facts += 1; }
+    let add = |rng: &mut Rng, facts: u64| -> String {
+        let r = rng.below(nrules);
+        let g = if rng.chance(2, 3) { format!("{}", if rng.chance(7, 8) { grp[r as usize] } else { 3 - grp[r as usize] }) } else { "-".to_string() };
+        let h = if facts > 0 && rng.chance(1, 4) { format!("{}", rng.range(1, facts + 1)) } else { "-".to_string() };
+        format!("a{}:{}:{}:{}:{}", r, *rng.pick(&[0i64, 5, 10, 20, 20, -3]), g, if rng.chance(3, 4) { 0 } else { 1 }, h)
+    };
+    for round in 0..rng.range(1, 3) {
+        if round > 0 {
+            if rng.chance(2, 3) { ops.push("Z".into()); }
+            if facts > 0 && rng.chance(1, 4) { ops.push(format!("u{}:{}:0", rng.range(1, facts), rng.below(5))); }
+            if facts > 0 && rng.chance(1, 8) { ops.push(format!("x{}", rng.range(1, facts))); }
+        }
+        for _ in 0..rng.range(if round == 0 { 2 } else { 0 }, 5) { ops.push(add(rng, facts)); }
+        if rng.chance(1, 6) { ops.push("F".into()); ops.push(add(rng, facts)); }
+        ops.push("F".into());
+    }
+    let _ = matchable;
+    format!("G {} {}", rules.join(","), ops.join(" "))
+}
+
 fn gen(rng: &mut Rng, n: usize, _tier: &str) -> Vec<String> {
     let mut out = Vec::new();
     for i in 0..n {
@@ -970,6 +1031,9 @@ fn gen(rng: &mut Rng, n: usize, _tier: &str) -> Vec<String> {
         let c = if i % 2 == 0 { gen_named(&mut r4) } else { gen_marks(&mut r4) };
         out.push(odd_rule_names(&mut r4, &c));
     }
+    // activations queued by the caller on the engine's agenda: own stream again
+    let mut r5 = Rng::new(r4.next() ^ 0x4752_4f55_5036);
+    for _ in 0..n / 10 { out.push(gen_group(&mut r5)); }
     out
 }
 
@@ -985,6 +1049,8 @@ fn shrink(case: &str) -> Vec<String> {
             }
             out
         }
+        // rules are referred to by index in the `a` ops: only the op list shrinks
+        Some("G") if t.len() >= 2 => shrink_list(&t[2..]).into_iter().map(|v| format!("G {} {}", t[1], v.join(" "))).collect(),
         Some("K") if t.len() >= 2 => {
             let rules: Vec<&str> = t[1].split(',').collect();
             let mut out: Vec<String> = shrink_list(&t[2..]).into_iter().map(|v| format!("K {} {}", t[1], v.join(" "))).collect();
